@@ -175,6 +175,30 @@ fn enumerate(ctx: &Ctx, st: &Stats) {
             }
         });
         st.set_counter("K_values", 56404);
+        // the same look-ups in other orders on ONE thread (descending; every table size right after the next row;
+        // zig-zag around every row boundary): the answers must not depend on what was asked before
+        {
+            let mut orders: Vec<u32> = (0..=56403u32).rev().collect();
+            for i in 0..TABLE2.len() {
+                let kp = TABLE2[i].0;
+                let next = if i + 1 < TABLE2.len() { TABLE2[i + 1].0 } else { kp };
+                let prev = if i > 0 { TABLE2[i - 1].0 } else { 0 };
+                orders.extend_from_slice(&[next, kp, kp + 1, kp, prev + 1, kp, prev.max(1), kp, next.min(kp + 1), prev.max(1)]);
+            }
+            orders.retain(|&k| k <= 56403);
+            let mut bad = 0;
+            for (pos, &k) in orders.iter().enumerate() {
+                st.eval(1);
+                if let Err(m) = check_params(k) {
+                    bad += 1;
+                    if bad <= 3 {
+                        // not replayable in isolation by construction: the context re-run decides
+                        st.violation(format!("params-order:{}:{}", pos, k), format!("{} (look-up number {} of a descending / zig-zag sequence on one thread; the same look-up in ascending order is correct)", m, pos), json!({"kind":"params","K":k}));
+                    }
+                }
+            }
+            st.set_counter("K_lookups_in_other_orders", orders.len() as u64);
+        }
         st.eval(1);
         if guarded(|| rq::extended_source_block_symbols(56404)).is_ok() {
             st.violation("params:56404".into(), "K = 56404 was not refused".into(), json!({"kind":"params","K":56404}));
@@ -248,7 +272,7 @@ pub fn run(ctx: &Ctx) -> i32 {
     let all = ctx.thorough();
     finish(ctx, &st, Finish {
         level: "exploration",
-        rule: format!("all K in 0..=56403: 8 parameter functions vs reference + primality/ordering relations; tuples: every X in 0..2^24+K' for {} K' values through the real intermediate_tuple vs reference Tuple[K',X] and range conditions, in the release build and again in the debug-assertions+overflow-checks build (counters prefixed checked/); first the algebraically solved inputs where y+i wraps 2^32 (2 per K', reachable ones also through repair_packets / constraint-matrix generation / decode). Every (build, K', X) is a distinct case; evaluations counts both builds.", if all { "all 477".to_string() } else { "16 (10,12,18,26,101,248,257,989,1050,2195,10899,20778,30654,40398,50511,56403)".to_string() }),
+        rule: format!("all K in 0..=56403: 8 parameter functions vs reference + primality/ordering relations, in ascending order on 16 threads and again on one thread in descending and zig-zag order around every table row (the answer must not depend on earlier look-ups); tuples: every X in 0..2^24+K' for {} K' values through the real intermediate_tuple vs reference Tuple[K',X] and range conditions, in the release build and again in the debug-assertions+overflow-checks build (counters prefixed checked/); first the algebraically solved inputs where y+i wraps 2^32 (2 per K', reachable ones also through repair_packets / constraint-matrix generation / decode). Every (build, K', X) is a distinct case; evaluations counts both builds.", if all { "all 477".to_string() } else { "16 (10,12,18,26,101,248,257,989,1050,2195,10899,20778,30654,40398,50511,56403)".to_string() }),
         exhaustive: all,
         assumptions: vec!["reference tables V0..V3, Table 2 and the degree table are transcribed from the pinned commit (no RFC text on the image)".into()],
         extra: Map::new(),
